@@ -19,6 +19,20 @@ def tok_params(draw, maxmax=8, init="any"):
     init: 'any' -> all six parameters; 'default' -> init_min in {-1,0,1},
     init_max_silence arbitrary (irrelevant there)."""
     mx = draw(st.integers(1, maxmax))
+    if init == "any" and maxmax >= 8 and draw(rarely(5)):
+        # the initial phase and max_length meet: max_length around (init_min-1)*(init_max_silence+1)+1
+        # (a candidate made of single valid frames each followed by the tolerated silence) and around
+        # 2*(init_min+init_max_silence)
+        imin = draw(st.integers(2, 7))
+        isil = draw(st.integers(1, 4))
+        mx = max(draw(st.sampled_from([(imin - 1) * (isil + 1), 2 * (imin + isil), imin + isil, imin * (isil + 1)]))
+                 + draw(st.integers(-1, 2)), imin + 1, 2)
+        mn = draw(st.sampled_from([1, 1, 2, imin, mx]))
+        mn = min(max(mn, 1), mx)
+        sil = draw(st.sampled_from([0, isil, isil - 1, -1, 1]).filter(lambda v: v < mx))
+        return [mn, mx, sil, imin, isil, draw(st.sampled_from(MODES))]
+    if maxmax >= 8 and draw(rarely(10)):
+        mx = draw(st.integers(9, 48))  # between the small grid and the big lengths
     if maxmax >= 8 and draw(rarely(15)):
         # lengths above CPython's small-int cache, around powers of two
         mx = draw(st.one_of(st.integers(250, 300), st.sampled_from([255, 256, 257, 511, 512, 513, 1023, 1024, 1025])))
@@ -50,6 +64,15 @@ def pattern(draw, p, maxlen=64):
         motif = draw(st.text(alphabet="01", min_size=1, max_size=3 * min(mx, 12) + 6))
         total = draw(st.sampled_from([1000, 2048, 4097, 5000]))
         return (motif * (total // len(motif) + 1))[:total]
+    if imin >= 2 and isil >= 1 and draw(rarely(4)):
+        # initial-phase shapes: single valid frames separated by (about) the tolerated initial silence,
+        # then a run of valid frames
+        g = max(isil + draw(st.sampled_from([0, 0, 0, -1, 1])), 0)
+        r = max(imin + draw(st.sampled_from([-1, -1, 0, -2, 1])), 1)
+        body = ("1" + "0" * g) * r
+        tail = draw(st.sampled_from(["", "1", "11", "1" * mx, "1" * (mx + 1), "0" * (isil + 1) + "111", "10" * 3]))
+        lead = "0" * draw(st.integers(0, 2))
+        return (lead + body + tail + draw(st.sampled_from(["", "0", "0" * (ms + 1) + "1"])))[: max(maxlen, len(lead + body) + mx + 2)]
     if how <= 6:
         vruns = _clip([1, 2, mn - 1, mn, mn + 1, mx - 1, mx, mx + 1, 2 * mx, 2 * mx + 1, imin, imin - 1], hi=max(400, 2 * mx + 2))
         iruns = _clip([1, 2, ms, ms + 1, ms + 2, max(isil, 0), max(isil, 0) + 1, mx, mx + ms + 1], hi=max(400, 2 * mx + 2))
@@ -80,7 +103,9 @@ def pattern(draw, p, maxlen=64):
 
 
 @st.composite
-def tok_case(draw, maxmax=8, maxlen=64, init="any", kinds=("obj", "char", "bytes", "np", "int"), delivs=("list", "gen", "cb")):
+def tok_case(draw, maxmax=8, maxlen=64, init="any",
+             kinds=("obj", "char", "bytes", "np", "int", "obj", "char", "bytes", "np", "int", "nparr", "emptysil", "stateful"),
+             delivs=("list", "gen", "cb")):
     p = draw(tok_params(maxmax, init))
     pat = draw(pattern(p, maxlen if p[1] <= 64 else max(maxlen, 3 * p[1] + 20)))
     case = {
@@ -89,6 +114,8 @@ def tok_case(draw, maxmax=8, maxlen=64, init="any", kinds=("obj", "char", "bytes
         "kind": draw(st.sampled_from(kinds)),
         "deliv": draw(st.sampled_from(delivs)),
     }
+    if case["kind"] != "char" and draw(st.booleans()):
+        case["src"] = "duck"  # a source that does not derive from DataSource
     if draw(rarely(12)):
         # positional coincidence across uses: the earlier stream ends exactly on a cut at frame k-1,
         # the later one has its first (short) activity starting exactly at frame k
